@@ -7,11 +7,11 @@ STREAMS = {
     'throttle': dict(pkg='./cmd/throttle'),
     'window': dict(pkg='./cmd/window'),
     'detector': dict(pkg='./cmd/detector', overlay={'motion/zz_verif_motion.go': 'motion/zz_verif_motion.go'}),
-    'fs': dict(daemon='./cmd/thermal-recorder', strace=True,
+    'fs': dict(daemon='./cmd/thermal-recorder', strace=True, confirm=True,
                overlay={'cmd/thermal-recorder/zz_verif_main.go': 'thermal-recorder/zz_verif_main.go',
                         'cmd/thermal-recorder/zz_verif_fs.go': 'thermal-recorder/zz_verif_fs.go',
                         'cmd/thermal-recorder/zz_verif_e2e.go': 'thermal-recorder/zz_verif_e2e.go'}),
-    'e2e': dict(daemon='./cmd/thermal-recorder',
+    'e2e': dict(daemon='./cmd/thermal-recorder', confirm=True,
                 overlay={'cmd/thermal-recorder/zz_verif_main.go': 'thermal-recorder/zz_verif_main.go',
                          'cmd/thermal-recorder/zz_verif_fs.go': 'thermal-recorder/zz_verif_fs.go',
                          'cmd/thermal-recorder/zz_verif_e2e.go': 'thermal-recorder/zz_verif_e2e.go'}),
@@ -20,7 +20,7 @@ STREAMS = {
                           'cmd/thermal-recorder/zz_verif_fs.go': 'thermal-recorder/zz_verif_fs.go',
                           'cmd/thermal-recorder/zz_verif_e2e.go': 'thermal-recorder/zz_verif_e2e.go',
                           'cmd/thermal-recorder/zz_verif_conc.go': 'thermal-recorder/zz_verif_conc.go'}),
-    'writer': dict(daemon='./cmd/thermal-writer', overlay={'cmd/thermal-writer/zz_verif_writer.go': 'thermal-writer/zz_verif_writer.go'}),
+    'writer': dict(daemon='./cmd/thermal-writer', confirm=True, overlay={'cmd/thermal-writer/zz_verif_writer.go': 'thermal-writer/zz_verif_writer.go'}),
     'loglimiter': dict(pkg='./cmd/loglimiter', overlay={'loglimiter/zz_verif_loglimiter.go': 'loglimiter/zz_verif_loglimiter.go'}),
 }
 
